@@ -20,10 +20,15 @@ fn sig(obs: &str, kind: &str) -> String {
 	format!("C01|Window|{obs}|{kind}")
 }
 
+fn reg_words(m: &VecDeque<L>) -> u64 {
+	crate::reg::words_hash(m.iter().cloned())
+}
+
 /// model: front = oldest, back = newest
 fn check_state(w: &Window<L>, m: &VecDeque<L>, full: bool, rng: &mut Rng, r: &mut Report, case: &dyn Fn(&str) -> Value) {
 	let n = m.len();
 	r.eval(1);
+	r.case(&[1, n as u64, reg_words(m)]);
 	// len / is_empty
 	if w.len() as usize != n {
 		r.violate(&sig("len", "wrong"), "len() differs from capacity", || case("len"));
